@@ -70,17 +70,26 @@ def gen(suite, count, seed):
     return p.stdout.splitlines()
 
 
+def _big_stack():
+    # the extracted model recurses over lists: a packet of a few hundred kilobytes overflows the default 8 MB stack
+    try:
+        import resource
+        resource.setrlimit(resource.RLIMIT_STACK, (resource.RLIM_INFINITY, resource.RLIM_INFINITY))
+    except Exception:
+        pass
+
+
 def _run_shard(args):
     binary, lines = args
     p = subprocess.run([binary] + (['run'] if binary == HBIN else []), input='\n'.join(lines) + '\n',
-                       stdout=subprocess.PIPE, stderr=subprocess.PIPE, text=True, timeout=3000)
+                       stdout=subprocess.PIPE, stderr=subprocess.PIPE, text=True, timeout=3000, preexec_fn=_big_stack)
     out = p.stdout.splitlines()
     if len(out) != len(lines):
         # a crash (abort / stack overflow) kills the whole shard: find the culprit line by line
         out = []
         for l in lines:
             q = subprocess.run([binary] + (['run'] if binary == HBIN else []), input=l + '\n',
-                               stdout=subprocess.PIPE, stderr=subprocess.PIPE, text=True, timeout=600)
+                               stdout=subprocess.PIPE, stderr=subprocess.PIPE, text=True, timeout=600, preexec_fn=_big_stack)
             o = q.stdout.splitlines()
             out.append(o[0] if len(o) == 1 else 'CRASH rc=%d' % q.returncode)
     return out
